@@ -2,7 +2,7 @@
 import json, os
 from . import core
 
-TRACE_SPEC = {"reader": ("WSReaderTrace.tla", "WSReaderTrace.cfg")}
+TRACE_SPEC = {"reader": ("WSReaderTrace.tla", "WSReaderTrace.cfg"), "writer": ("WSWriterTrace.tla", "WSWriterTrace.cfg")}
 
 
 def main(pid, path):
